@@ -7,6 +7,7 @@ modes:  unparse   -- every module is replaced by ast.unparse(ast.parse(src))
         rename    -- local variables of every function are alpha-renamed
                      (parameters, attributes, globals and names used in
                      nested functions are left alone)
+        rename-some[-<seed>] -- a random half of them
 """
 import ast
 import importlib
@@ -25,6 +26,8 @@ PROPS = ["C%02d" % i for i in range(1, 21)]
 
 
 class Renamer(ast.NodeTransformer):
+    rng = None      # random.Random -> rename about half of the locals
+
     def visit_FunctionDef(self, node):
         # only leaf functions (no nested defs / lambdas / comprehension
         # scoping issues are avoided by leaving comprehension targets alone)
@@ -57,6 +60,8 @@ class Renamer(ast.NodeTransformer):
                 declared.add(n.name)
         local = stores - params - declared - comp_targets
         local = {x for x in local if not x.startswith("__")}
+        if self.rng is not None:
+            local = {x for x in sorted(local) if self.rng.random() < 0.5}
         for n in ast.walk(node):
             if isinstance(n, ast.Name) and n.id in local:
                 n.id = n.id + "_r"
@@ -74,6 +79,11 @@ def rewrite(mode, tmp):
             tree = ast.parse(src)
             if mode == "rename":
                 tree = Renamer().visit(tree)
+            elif mode.startswith("rename-some"):
+                import random
+                r = Renamer()
+                r.rng = random.Random(mode + fn)
+                tree = r.visit(tree)
             open(p, "w").write(ast.unparse(tree) + "\n")
 
 
@@ -99,6 +109,16 @@ def one(args):
 
 def main(argv):
     mode = argv[0] if argv else "unparse"
+    if "--keep" in argv:
+        # only write the rewritten tree (for debugging a single rule with
+        # CHAMLINT_REPO=<dir> bin/check Cnn); the caller removes it
+        dst = argv[argv.index("--keep") + 1]
+        shutil.copytree(os.path.join(REPO, "src"), os.path.join(dst, "src"),
+                        ignore=shutil.ignore_patterns("__pycache__", "*.pyc",
+                                                      "tests"))
+        rewrite(mode, dst)
+        print("kept", dst)
+        return
     tmp = tempfile.mkdtemp(prefix="chamlint-fuzz-")
     try:
         shutil.copytree(os.path.join(REPO, "src"), os.path.join(tmp, "src"),
